@@ -47,14 +47,14 @@ def with_timeout(f, seconds=0.25):
         signal.setitimer(signal.ITIMER_REAL, 0)
 
 
-def build(desc, slow=False, **kw):
+def build(desc, slow=False, lenient=False, **kw):
     """-> (module, export dict) ; raises whatever Grammar() raises, or ExportError"""
     _captured.clear()
     g = with_timeout(lambda: Grammar(desc, **kw), 120.0 if slow else 10.0)
     rules = _captured.get('rules')
     if rules is None:
         raise ExportError('translator._assign_ids was not reached')
-    return g, Exporter(rules).export()
+    return g, Exporter(rules, lenient=lenient).export()
 
 
 def drive(g, func, text, pos):
